@@ -109,7 +109,9 @@ class BuiltinBroachingCodeGenerator(BroachingCodeGenerator):
     def _gen_constant_element(self, state: GenState, element: ConstantElement) -> AST:
         expr = get_literal_expr(element.value)
         if expr is not None:
-            return ast.parse(expr)
+            # "eval" mode is required: a module consisting of a string constant is a docstring,
+            # it is unparsed as a triple-quoted literal whose line breaks are indented by the code builder
+            return ast.parse(expr, mode="eval").body
 
         name = state.register_next_id("constant", element.value)
         return ast.Name(id=name, ctx=ast.Load())
